@@ -1,5 +1,6 @@
 (* C16 - Error replies are coherent: code classes agree and match retry behaviour.
    Only statements, each closed by [exact <lemma>], with Print Assumptions. *)
+From Maddy Require Err.RemoteCorr.
 From Maddy Require Import Lib.Base Err.Model Err.Lemmas.
 Local Open Scope Z_scope.
 
@@ -117,3 +118,13 @@ Example C16_nonvacuous_unannotated :
   let e := EFields [(KOther 1, FStr [])] (EWrapW (ENet true)) in
   wa e = true /\ annot e = None /\ has_deadline e = false.
 Proof. vm_compute. auto. Qed.
+
+(* the remote target's "no usable MX" failure: whatever the candidates did, the reply built from
+   the candidate tried last is coherent and its class is the retry decision *)
+Theorem C16_no_usable_mx_coherent :
+  forall fails,
+    let r := RemoteCorr.no_usable_mx fails in
+    coherent {| r_code := fst r; r_ench := snd r; r_msg := [] |} = true /\
+    Z.eqb (cls (fst r)) 4 = last fails false.
+Proof. exact RemoteCorr.no_usable_mx_coherent. Qed.
+Print Assumptions C16_no_usable_mx_coherent.
